@@ -136,7 +136,8 @@ def run_law(task, closed_form, input_constraints, max_cells=400, outcome_key=Non
             cvars.update(ctx.vars)
             if status != "ok":
                 (res["harness_errors"] if status.startswith("harness") else res["inconclusive"]).append(status)
-                continue
+                law = None  # an incomplete exploration gives partial sums: never compare those
+                break
             if any(d[0] == "b" and d[2] == 2 for d in ex.decisions):
                 new_atoms = True
             if outcome is None or outcome.get("kind") == "excluded":
@@ -400,7 +401,7 @@ def cell_law(res, hname, params, cell, okey=None):
         cvars.update(ctx.vars)
         if status != "ok":
             (res["harness_errors"] if status.startswith("harness") else res["inconclusive"]).append(status)
-            continue
+            return None  # partial sums must never be compared
         if any(d[0] == "b" and d[2] == 2 for d in ex.decisions):
             res["inconclusive"].append("a parameter comparison appeared inside a cell (cell split incomplete)")
         if outcome is None or outcome.get("kind") == "excluded":
